@@ -88,12 +88,22 @@ static void do_op(Cmd *c) {
         else if (is_op(c, "it_add")) { st = cc_deque_iter_add(&it, PTR(a0)); o_stat(st); }
         else if (is_op(c, "it_replace")) { st = cc_deque_iter_replace(&it, PTR(a0), noout ? NULL : &out); if (noout) o_stat(st); else o_out(st, out); }
         else if (is_op(c, "it_index")) o("st=- out=%zu", cc_deque_iter_index(&it));
+        else if (is_op(c, "it_sweep")) {   /* `it_sweep n=<k>`: k x iter_next, stops at the end: count + checksum of the values */
+            uint64_t cnt = kv_u64(c, "n", 1), got = 0, h = 0xcbf29ce484222325ULL; st = CC_OK;
+            for (uint64_t i = 0; i < cnt; i++) { st = cc_deque_iter_next(&it, &out); if (st != CC_OK) break; got++; h = (h ^ (uint64_t)VAL(out)) * 0x100000001b3ULL; }
+            o_stat(st); o(" out=%llu sum=%llu", (unsigned long long)got, (unsigned long long)h);
+        }
         else o("st=- badop");
     } else if (!D[k]) { o("st=- nosession"); o_sep(); o("-"); return;
     } else if (is_op(c, "it_new")) { cc_deque_iter_init(&it, D[k]); it_slot = k; o("st=-");
     } else if (is_op(c, "drop")) { cc_deque_destroy(D[k]); D[k] = NULL; forget_iters(k); o("st=-");
     } else if (is_op(c, "destroy_cb")) { cc_deque_destroy_cb(D[k], cb_rec); D[k] = NULL; forget_iters(k); o("st=- "); o_cb();
     } else if (is_op(c, "add")) { st = cc_deque_add(D[k], PTR(a0)); o_stat(st);
+    } else if (is_op(c, "fill")) {
+        /* `fill n=<count> seed=<s>`: count x add_last of (i * 7919 + s * 104729) % 1000003, i = 0.., stops at the first failure */
+        uint64_t cnt = kv_u64(c, "n", 0), sd = kv_u64(c, "seed", 1); st = CC_OK;
+        for (uint64_t i = 0; i < cnt && st == CC_OK; i++) st = cc_deque_add_last(D[k], PTR((i * 7919ULL + sd * 104729ULL) % 1000003ULL));
+        o_stat(st);
     } else if (is_op(c, "add_first")) { st = cc_deque_add_first(D[k], PTR(a0)); o_stat(st);
     } else if (is_op(c, "add_last")) { st = cc_deque_add_last(D[k], PTR(a0)); o_stat(st);
     } else if (is_op(c, "add_at")) { st = cc_deque_add_at(D[k], PTR(a0), (size_t)a1); o_stat(st);
